@@ -12,9 +12,9 @@ CHECKS = {
     "C05": ("exploration", "structure-aware PBT/fuzzing of inbound byte paths with no-panic, allocation, cap, window and source-attribution oracles",
             "Random bytes (sizes clustered at 0/1/64Ki±1/128Ki), structure-aware mutations of every valid message kind (bit flips, truncation, splices, maximal varints) and valid messages with extreme fields through handle_dht_message, the real receive dispatcher (frame parser, /rr/ branch, DHT handler), DhtCoreEngine::handle_request, DhtRecord (de)serialise and the envelope parser: no panic, heap growth ≤ 4 MiB + 16×len (oversized DHT messages refused before decoding with < 64 KiB allocated), find-node ≤ 20 / find-value ≤ 8 nodes, values > 512 bytes never stored, records ≤ 512 bytes, frames surfaced only inside the timestamp window, surfaced source = connection id whatever the payload claims.",
             "Thread-local counting allocator; 5 s dead band on wall-clock window edges.", "5/C05"),
-    "C20": ("exploration", "PBT over seeded schedules (start offsets, per-frame delays, silence/stop instants) under an owned virtual clock; bounded-completion oracle",
+    "C20": ("exploration", "PBT over seeded schedules (start offsets, per-frame delays, silence/stop instants) under an owned virtual clock; bounded-completion oracle; leftover-reference check for background tasks; sampled real-thread variant",
             "2..12 real nodes, 2..12 (40) concurrent lookups/puts/gets/pings/inbound requests at seeded offsets, per-frame delays up to 1.5×timeout, peers turned silent/dead mid-operation, stop() at a seeded instant: every operation resolves within (2·20+2)·T, stop() returns within (peers+2)·T, after stop returned and its operations resolved no frame or send attempt leaves the node for 10·T and an injected request is not answered, no task panics.",
-            "Paused tokio clock on one thread: liveness is bounded completion in virtual time; OS-thread interleavings are not explored.", "5/C20"),
+            "Paused tokio clock on one thread (seeded yields and delays give the interleavings): liveness is bounded completion in virtual time; OS-thread interleavings are only sampled by the real-thread sub-check, where only a hang (> 60 s beyond the bound) is decided.", "5/C20"),
     "C01": ("exploration", "PBT over topologies × fault patterns on an in-memory network of real nodes under virtual time; trace invariants + ground-truth closest set",
             "N real DhtNetworkManager/TransportHandle instances exchange the real framed bytes through a hub (paused tokio clock); generated topology, ids, key, K, silent/dead/slow peers and lying stub peers (unknown, duplicate, requester, self ids, forged distances). From the returned list and the RPC trace: completes within a virtual-time bound, ≤K distinct nodes in ascending true XOR distance, each the local node or a peer whose reply was delivered in time, no learned peer closer than the farthest returned one left uncontacted, full mesh ⇒ exactly the K globally closest, never a request to itself, no peer queried twice, ≤1000 frames.",
             "QUIC (ant-quic) is replaced by the hub below send_message / above the receive dispatcher; liars name ≤12 fabricated ids so the documented budget can satisfy completeness.", "5/C01"),
@@ -39,7 +39,7 @@ CHECKS = {
     "C18": ("exploration", "model-based stateful PBT + exhaustive single-byte corruption sweep + crash-image enumeration of the file update",
             "store/retrieve(current|previous|other password)/change-password/clear-cache/reopen histories vs a reference model; every byte offset × 3 masks of a golden store file (thorough; quick every 4th offset) must fail or return the original seed; store and password change interrupted at each instrumented step (+ truncations of the temporary file) must reopen as exactly the old or the new contents.",
             "SecurityLevel::Fast; crash points are the instrumented steps of encrypt_and_store.", "5/C18"),
-    "C19": ("exploration", "exhaustive boundary grid + seeded sampling with round-trip oracles; cross-component differential; malformed-input robustness",
+    "C19": ("exploration", "exhaustive boundary grid + seeded sampling with round-trip oracles; cross-component differential (routing-table gate; dial of an address carried through a DHT reply on the in-memory network); malformed-input robustness",
             "7776-point IPv4 boundary grid exhaustively, seeded samples of the 2^48 space, IPv6 classes, separator/case variants: published word form decodes to the same address, own Display rendering parses back, serde JSON/postcard and ContactEntry round trips, 6-byte prefix round trip; routing-table gate treats the library rendering like the socket form; malformed strings never panic or yield a different address.",
             "An address for which no word form is published makes the four-word clauses vacuous (counted).", "5/C19"),
     "C02": ("exploration", "model-based stateful PBT: routing table vs reference set + sort",
